@@ -215,7 +215,8 @@ class Gen:
         kinds = ['apps', 'appb', 'appc', 'pres', 'preb', 'asg', 'asg', 'copy-mutate', 'resize', 'resize', 'reserve', 'clear', 'detach',
                  'poke', 'cstr', 'cstr', 'attach', 'attach', 'repc', 'reps', 'reps', 'lower', 'upper', 'trim', 'printf', 'join',
                  'substr', 'tokc', 'toks', 'split', 'eq', 'cmp', 'cmpn', 'cmpi', 'cmpin', 'eqi', 'findc', 'findlc', 'findcf',
-                 'finds', 'findsf', 'findo', 'findof', 'findls', 'findlo', 'starts', 'ends', 'len', 'drop', 'appo', 'appo', 'printfs']
+                 'finds', 'findsf', 'findo', 'findof', 'findls', 'findlo', 'starts', 'ends', 'len', 'drop', 'appo', 'appo', 'printfs',
+                 'eqlit', 'splitset', 'fromprintf', 'stat', 'stat']
         if self.allowed:
             kinds = [k for k in kinds if k in self.allowed]
         what = r.choice(kinds)
@@ -447,6 +448,43 @@ class Gen:
             else:
                 sh.cstr(v)
                 self.emit('%s %d %s' % (what, v, hexs(d)), what + '/' + kd + ('/empty-arg' if not d else ''))
+        elif what == 'eqlit':
+            # operator==/!= against a string literal (array overloads): equal, one byte off, one byte longer / shorter
+            base = x.val if (self.nulfree(v) and n <= 39) else self.cdata()
+            goal = r.choice(['same', 'same', 'last', 'longer', 'shorter', 'other'])
+            if goal == 'last' and base: d = base[:-1] + bytes([base[-1] ^ 1 or 1])
+            elif goal == 'longer' and len(base) < 39: d = base + bytes([r.choice(ALPHA_TEXT)])
+            elif goal == 'shorter' and base: d = base[:-1]
+            elif goal == 'other': d = self.cdata()
+            else: d = base
+            d = d[:39]
+            self.emit('eqlit %d %s' % (v, hexs(d)), 'eq-literal/' + ('equal' if d == x.val else 'len-equal' if len(d) == n else 'len-differs'))
+        elif what == 'splitset':
+            if not self.nulfree(v): return self.step()
+            seps = self.piece_of(v, 2) if r.random() < 0.8 else self.cdata(r.randrange(0, 3))
+            seps = bytes(c for c in seps if c != 0)
+            sh.cstr(v)
+            toks = re.split(b'[' + b''.join(b'\\x%02x' % c for c in seps) + b']', x.val) if seps else [x.val]
+            self.emit('splitset %d %s %d' % (v, hexs(seps), r.randrange(2)), 'split-set/' + kd + ('/duplicates' if len(set(toks)) < len(toks) else ''))
+        elif what == 'fromprintf':
+            if full: return self.step()
+            k = r.choice([0, 1, 5, 198, 199, 200, 201, 203, 204, 250]) if r.random() < 0.4 else self.n()
+            d = self.cdata(k)
+            sh.ngrp += 1
+            sh.vars.append(Var(d, 'O', 200 if len(d) < 200 else or3(len(d)), sh.ngrp))
+            self.emit('fromprintf %s' % hexs(d), 'fromPrintf/' + ('fits' if len(d) < 200 else 'second-pass' + ('-exact' if len(d) == 200 else '')))
+        elif what == 'stat':
+            u = self.other(v)
+            if r.random() < 0.4:
+                cands = [i for i, y in enumerate(sh.vars) if i != v and y.val[:1] == x.val[:1]]
+                if cands: u = r.choice(cands)
+            q = r.choice(['scmp', 'scmpn', 'scmpi', 'scmpin', 'eqin', 'eqin', 'sstarts', 'sstarts', 'slen', 'sfindc', 'sfindlc'])
+            if q != 'eqin' and not (self.nulfree(v) and self.nulfree(u)): q = 'eqin'
+            m = len(sh.vars[u].val)
+            if q in ('scmpn', 'scmpin', 'eqin'): k = r.choice([0, 1, n, m, n + 1, m + 1, min(n, m), r.randrange(0, n + 2)])
+            elif q in ('sfindc', 'sfindlc'): k = r.choice(list(x.val) or ALPHA_TEXT) if r.random() < 0.7 else r.choice(ALPHA_TEXT)
+            else: k = 0
+            self.emit('stat %s %d %d %d' % (q, v, u, k), 'static/' + q + ('/self' if u == v else ''))
         elif what == 'len':
             self.emit('len %d' % v, 'len')
         elif what == 'drop':
@@ -485,7 +523,7 @@ CORE_OPS = ['apps', 'appb', 'appc', 'appo', 'pres', 'preb', 'asg', 'copy-mutate'
 
 # comparisons of near-copies: copy, change one byte / case / length, compare (binary alphabet: 0x00, 0x80, 0xff)
 CMP_OPS = ['copy-mutate', 'copy-mutate', 'poke', 'poke', 'appc', 'appb', 'resize', 'lower', 'upper', 'attach', 'asg', 'eq', 'cmp', 'cmp',
-           'cmpn', 'cmpi', 'cmpin', 'eqi', 'starts', 'ends', 'drop', 'trim']
+           'cmpn', 'cmpi', 'cmpin', 'eqi', 'starts', 'ends', 'drop', 'trim', 'stat', 'stat', 'eqlit']
 
 
 def scope_cases(depth, alphabet):
@@ -504,6 +542,9 @@ SCOPE_ALPHABET = [
     'substr 3 1 -1', 'tokc 3 121 0', 'toks 3 79 3', 'split 3 79 0', 'cmp 3 0', 'cmpn 3 3 9', 'eqi 3 0', 'finds 3 797a', 'findls 3 -', 'findcf 3 122 1',
     'starts 3 0', 'ends 3 3', 'findlo 3 78', 'findc 3 33',
     'appo 1 0 2', 'appo 3 1 2', 'appo 0 0 2', 'appo 2 1 0', 'printfs 1 3c 3e', 'printfs 3 - 21', 'printfs 0 - -',
+    'eqlit 3 78797a', 'eqlit 0 6162', 'eqlit 1 63', 'eqlit 0 616263', 'splitset 3 79 0', 'splitset 0 62 1', 'fromprintf 7071',
+    'stat scmp 3 0 0', 'stat scmpn 1 2 1', 'stat scmpi 0 1 0', 'stat scmpin 3 3 2', 'stat eqin 1 2 1', 'stat sstarts 3 0 0', 'stat sstarts 1 1 0',
+    'stat slen 3 3 0', 'stat sfindc 3 3 122', 'stat sfindlc 0 0 98',
 ]
 
 
@@ -524,46 +565,67 @@ class C06(Check):
     level_text = ('Theorems in Coq (closed under the global context) about an executable model of the lazy-copy String that mirrors '
                   'String.hpp/String.cpp method by method (variables = data pointers to emptyData / the inline non-owning descriptor / '
                   'a heap block with cells, len, capacity, ref; immutable foreign regions for literals and attached memory; every read '
-                  'and write bounds-checked): for ALL histories of 50 operations over any number of String variables, '
+                  'and write bounds-checked): for ALL histories of 56 operations over any number of String variables, '
                   'string_refines_values (the model never fails with a memory error and the values and query results equal those of k '
                   'independent byte lists under pure reference functions - construction, attach, copy/assign, append/prepend incl. the '
-                  'String itself as argument, resize/reserve/clear, write through char*, replace(char,char), replace(String,String), case '
-                  'mapping via the tables regenerated from String.cpp, trim, substr, token, split, join, printf bookkeeping, ==, compare*, '
-                  'find*, startsWith/endsWith, length), cstr_nul_terminated, copies_independent, foreign_memory_unchanged, '
-                  'self_args_as_if_copied, heap_invariant (ref = number of handles, no handle to a freed block, nothing live after the '
-                  'last destructor). The model is tied to the code by running the extracted model, the extracted reference and an '
-                  'ASan/UBSan build of the working tree on the same histories and comparing, after every operation and for every variable, '
-                  'length, bytes, results, and (read-only via private access) the sharing partition of the data pointers, ref, capacity, '
-                  'capacity(), terminator; literal/attached memory sits between poisoned guard areas and is re-read after every operation; '
+                  'String itself and a pointer INTO its own text as argument, resize/reserve/clear, write through char*, '
+                  'replace(char,char), replace(String,String), case mapping via the tables regenerated from String.cpp, trim, substr, '
+                  'token, split into List and HashSet, join, printf/fromPrintf bookkeeping incl. printf with the own text as argument, '
+                  '==, == literal, compare*, equalsIgnoreCase, find*, startsWith/endsWith, length, the static const char* helpers), '
+                  'cstr_nul_terminated, copies_independent, foreign_memory_unchanged/foreign_memory_kept (structural: the model has no '
+                  'writer for foreign regions; the clause is carried by run_memory_safe - a write through a non-owning descriptor '
+                  'would be an error - and by the harness), self_args_as_if_copied, heap_invariant (ref = number of handles, no handle '
+                  'to a freed block, nothing live after the last destructor). trim, ==, compare*, equalsIgnoreCase are total on byte '
+                  'strings (embedded NUL included); operations built on strstr/strpbrk/strchr are specified for NUL-free values. The '
+                  'model is tied to the code by running the extracted model, the extracted reference and an ASan/UBSan build of the '
+                  'working tree on the same histories and comparing, after every operation and for every variable, length, bytes, '
+                  'results, and (read-only via private access) the sharing partition of the data pointers, ref, capacity, capacity(), '
+                  'terminator; literal/attached memory sits between poisoned guard areas and is re-read after every operation; '
                   'allocations are tracked through the sanitizer allocator hooks (no block live at the end of a case).')
-    level_note = ('Partial in this sense: (1) printf - the bytes vsnprintf produced are an INPUT of the operation (harness: printf("%s", bytes)); '
-                  'only the detach/capacity/length bookkeeping of String::printf is modelled and proved. (2) libc strstr/strpbrk/strchr are '
-                  'reference functions on NUL-free text (find_first of a suffix predicate), trusted, not verified; the loops of libnstd '
-                  'around them (replace, split, token, trim, findLast, compare*) are mirrored and proved equal to the reference functions. '
-                  '(3) The C-string based operations are specified for NUL-free byte operands only (the quantifier of the property); outside '
-                  'that domain the reference is silent and the case is cut there ("! not-accepted"). (4) resize(n) beyond length() is driven '
-                  'as "resize, then fill the exposed bytes through operator char*()" so that no indeterminate byte is ever observable; the '
-                  'state "grown from empty without terminator" is therefore only crossed, not observed. (5) split is observed through its '
-                  'List result; the temporaries it creates are not part of the model state. (6) scanf, toInt/toDouble/fromInt, fromHex/'
-                  'fromBase64, hash(), operator+ are outside this property (C18 covers the codecs). (7) Sizes are assumed < 2^63 (no usize '
-                  'wrap). Trusted: Coq kernel, StrSpec.v as the reading of the property, extraction + OCaml driver, harness, generators, '
-                  'table translator. The theorems are about the model; the tie to the code is differential. Validated by correspondence '
-                  'only: nothing modelled is left unproved.')
+    level_note = ('Partial in this sense: (1) printf/fromPrintf - the bytes vsnprintf produces are an INPUT of the operation (harness: '
+                  'printf("%s", bytes); printfs: printf("%s%s%s", a, (const char*)s, b) where the model reads the middle part from the '
+                  'data the String had before the call); only the keep-old-data/detach/capacity/length bookkeeping is modelled and '
+                  'proved. (2) libc strstr/strpbrk/strchr are reference functions on NUL-free text (find_first of a suffix predicate), '
+                  'trusted, not verified; the loops of libnstd around them (replace, split, token, trim, findLast) and its own loops '
+                  '(compare family, static compare/length/find/findLast) are mirrored and proved equal to the reference functions. '
+                  '(3) Domain: trim, ==, compare, compare(n), compareIgnoreCase(n), equalsIgnoreCase(n), startsWith/endsWith, find(char) '
+                  'are specified and proved for ALL byte strings (after fixes 08/09; also compareIgnoreCase and equalsIgnoreCase without n). replace(String,String), token(char/set), split '
+                  '(List/HashSet), find(char,start), find/findOneOf/findLast/findLastOf(const char*), printf with the own text and the '
+                  'static const char* helpers are specified for NUL-FREE VALUES only - they are built on the C-string searches the '
+                  'quantifier exempts; with an embedded NUL the code stops searching there (replace "b"->"x" in 61 62 00 61 62 gives '
+                  '61 78 00 61 62; split of 61 2c 62 00 63 2c 64 at 2c gives 61 | 62 00 63 2c 64) and the reference is silent: the case '
+                  'is cut at that operation ("! not-accepted"). (4) resize(n) beyond length() is driven as "resize, then fill the '
+                  'exposed bytes through operator char*()" so that no indeterminate byte is ever observable; the state "grown from '
+                  'empty without terminator" is only crossed, not observed. attach needs one readable byte behind the window '
+                  '(off + len < |buffer|). find(x, start)/token(char, start) with start >= length() answer not-found/empty also for an '
+                  'empty needle (choices listed in the header of StrSpec.v). (5) split is observed through its List / sorted HashSet '
+                  'result; the temporaries it creates, and the copies the static-helper ops run on, are not part of the model state. '
+                  '(6) Not driven: scanf, toInt/toDouble/fromInt..., toBool, fromHex/fromBase64 (C18), hash(), operator+, fromCString '
+                  '(= String(str, length(str)), both parts driven), the static find(in, str)/findOneOf/findLast(in, str)/findLastOf '
+                  '(thin wrappers of strstr/strpbrk, the members call the same code), isSpace/isAlpha.... (7) Sizes are assumed < 2^63 '
+                  '(no usize wrap). (8) foreign_memory_unchanged/foreign_memory_kept hold by construction of the model (no operation '
+                  'writes a region); what excludes writes to literal/attached memory is run_memory_safe (Err WriteForeign never occurs) '
+                  'plus the guarded foreign memory of the harness. Trusted: Coq kernel, StrSpec.v as the reading of the property, '
+                  'extraction + OCaml driver, harness, generators, table translator. The theorems are about the model; the tie to the '
+                  'code is differential. Validated by correspondence only: nothing modelled is left unproved.')
     rule = ('cases = histories over 1..5 String variables built by a steering shadow: constructors (default, literal via the array '
-            'constructor, buffer, fill, capacity, copy), attach to fresh or SHARED foreign buffers (terminated and unterminated windows), '
-            'and every mutator/query; sizes aim at the capacity decisions of detach (fit / exact / +1 / |3 boundaries / 0 / same), String '
-            'arguments are the variable itself or a sharer of its block with raised probability (stream selfargs: 70%), needles and '
-            'separator sets are cut out of the current value; streams: core (operations of the heap proof), text (all operations, '
-            'NUL-free), binary (embedded NUL, 0x80, 0xff), selfargs, long (60-140 operations, lengths to 300, printf around the 200/203 '
-            'boundary), scope1/scope2 (EXHAUSTIVE: every history of 1 resp. 2 operations of a 65-operation alphabet after a fixed prologue '
-            'with a literal, two variables sharing a block and an unterminated view). A case is non-trivial when the implementation\'s own '
-            'dump shows at least two of {block shared by two variables, view, unterminated view, capacity change, self argument} and it has '
-            '>= 3 mutating operations; distinct = distinct op text.')
+            'constructor, buffer, fill, capacity, copy, fromPrintf), attach to fresh or SHARED foreign buffers (terminated and '
+            'unterminated windows), and every mutator/query; sizes aim at the capacity decisions of detach (fit / exact / +1 / |3 '
+            'boundaries / 0 / same), String arguments are the variable itself or a sharer of its block with raised probability (stream '
+            'selfargs: 70%), append(p + off, len) and printf("%s", p) with p the own C-string view (whole / prefix / suffix / inner / '
+            'empty ranges, output lengths around 200/203), needles and separator sets are cut out of the current value, literals for '
+            '== are the value, one byte off, one longer, one shorter; streams: core (operations of the heap proof), text (all '
+            'operations, NUL-free), binary (embedded NUL, 0x80, 0xff), selfargs, compare (copy, change one byte / case / length, then '
+            '==, compare*, equalsIgnoreCase, static helpers, trim; binary alphabet), long (60-140 operations, lengths to 300, '
+            'printf around the 200/203 boundary), scope1/scope2 (EXHAUSTIVE: every history of 1 resp. 2 operations of an '
+            '89-operation alphabet after a fixed prologue with a literal, two variables sharing a block and an unterminated view). A '
+            'case is non-trivial when the implementation\'s own dump shows at least two of {block shared by two variables, view, '
+            'unterminated view, capacity change, self argument} and it has >= 3 mutating operations; distinct = distinct op text.')
     assumptions = ['sizes < 2^63 (no usize wrap-around in capacity arithmetic)',
-                   'printf: formatting is an input (the operation carries the bytes vsnprintf produced)',
+                   'printf/fromPrintf: formatting is an input (the operation carries the bytes vsnprintf produced; for printf with the own text as argument: the bytes around it)',
                    'strstr/strpbrk/strchr of libc behave as first-occurrence search on NUL-free text (reference functions in StrModel.v)',
                    'an indeterminate byte at str[len] is taken as non-zero by the C-string view (either answer yields a terminated view)',
-                   'StrSpec.v is the reading of the property text (values = byte lists, pure reference functions, domain predicate pre)']
+                   'StrSpec.v is the reading of the property text (values = byte lists, pure reference functions, domain predicate pre; its header lists what pre restricts and the choices made where the text is silent)']
     per_case_timeout = 1
 
     def __init__(self):
@@ -615,7 +677,7 @@ class C06(Check):
             selfarg = (len(t) > 2 and t[0] in ('apps', 'pres', 'asg', 'reps', 'join', 'eq', 'cmp', 'starts', 'ends') and t[1] in t[2:]) \
                 or (t and t[0] in ('appo', 'printfs'))
             if got.startswith('!'):
-                kind = got.strip()
+                kind = got.split(' | ')[0].strip()
             elif exp.split(' | ')[0] != got.split(' | ')[0]:
                 kind = 'result'
             elif 'M=bad' in got:
@@ -687,7 +749,9 @@ class C06(Check):
             if t[0] in ('apps', 'pres', 'asg', 'eq', 'cmp', 'starts', 'ends') and len(t) > 2 and t[1] == t[2]: feats.add('self')
             if t[0] == 'reps' and (t[1] == t[2] or t[1] == t[3]): feats.add('self')
             if t[0] in ('appo', 'printfs'): feats.add('self')
-        muts = sum(1 for l in case if l.split()[0] not in ('new', 'lit', 'buf', 'fill', 'cap', 'reg', 'eq', 'len', 'cmp', 'findc', 'findlc', 'starts', 'ends'))
+            if t[0] == 'stat' and t[2] == t[3]: feats.add('self')
+        muts = sum(1 for l in case if l.split()[0] not in ('new', 'lit', 'buf', 'fill', 'cap', 'reg', 'eq', 'len', 'cmp', 'findc', 'findlc', 'starts', 'ends',
+                                                            'eqlit', 'stat', 'splitset', 'fromprintf'))
         return len(feats) >= 2 and muts >= 3
 
     def extra_checks(self, tier, rng, ctx):
